@@ -810,3 +810,9 @@ REQUIRED_THEOREMS = REQUIRED_THEOREMS + ['Cv.C01Solve.luSolveCorrect', 'Cv.C01So
 _np = list(NOT_PROVED)
 _np = [(None if 'cholesky_correct (L*L^T = A) and the Cholesky route' in str(x) else x) for x in _np]
 NOT_PROVED = [x for x in _np if x is not None]
+
+# --- deep theorems (RoundingLU)
+PROOF_MODULES = PROOF_MODULES + ['Compute.Props.RoundingLU', 'Compute.Lemmas.FactorRounding', 'Compute.Lemmas.FactorRoundingLu', 'Compute.Lemmas.FactorRoundingLuStruct', 'Compute.Lemmas.FactorRoundingLuSolveStruct']
+REQUIRED_THEOREMS = REQUIRED_THEOREMS + ['Cv.RoundingLU.solve_backward_error', 'Cv.RoundingLU.choleskyRoute_backward_error', 'Cv.RoundingLU.luRoute_backward_error', 'Cv.RoundingLU.luRoute_residual', 'Cv.RoundingLU.choleskyRoute_residual', 'Cv.RoundingLU.luRoute_backward_error_norm', 'Cv.RoundingLU.f64_note']
+NOT_PROVED = [x for x in NOT_PROVED if not any(k in str(x) for k in ('floating-point rounding of the factorisations',))]
+NOT_PROVED = NOT_PROVED + ["the end-to-end floating-point residual bound in terms of ||A|| (the property's form) needs the growth factor of partial pivoting, which is not bounded by a theorem; PROVED in the standard model (Props/RoundingLU): whatever `solve` returns satisfies (A+dA)x = b with |dA| <= gamma_(3n)|L||U| (LU route, also norm-wise gamma_(3n) n ||U||) resp. gamma_(3n+1)|L||L^T| (Cholesky route), with residual corollaries; trusted link: IEEE binary64 arithmetic and sqrt obey fl(x) = x(1+d), |d| <= 2^-53, absent overflow/underflow"]
